@@ -5,27 +5,40 @@ import SaModel.Lemmas.C03Read
 import SaModel.Lemmas.C03ReadUtf8
 import SaModel.Lemmas.C03ReadPhys
 import SaModel.Lemmas.C04Root
+import SaModel.Lemmas.C03PhysSize
+import SaModel.Props.C11Physical
 /-
 C03 → C02 bridge: arrays that serde_arrow BUILDS satisfy everything the reader theorems assume.
 
 The read-back theorems (`Props.C02.read_any_decode`, `read_typed_decode`) carry three reader-side preconditions:
 `Read.new Fixes.all a = ok ()` (the reader can be constructed), `Read.physical a` (lengths representable),
-`Read.utf8Ok lv` (decoded strings are valid UTF-8).  Here they are DERIVED from `Spec.WFS` — which `C03_wfS'` proves of every
-array `to_marrow` returns — and composed with `Props.C01.C01_build_decode'` (the hidden-rows refinement, Props/C01Obs.lean:
-NO `Safe` hypothesis; the theorems that have `coveredF` among their hypotheses carry nothing in its place, the two that do
-not — `toMarrow_readable`, `toMarrow_physical_partial` — carry exactly the hypothesis of `C03_wfS'`, `Safe ∨ coveredF`):
+`Read.utf8Ok lv` (decoded strings are valid UTF-8).  Here they are DERIVED for the arrays `to_marrow` returns and composed
+with `Props.C01.C01_build_decode'` (the hidden-rows refinement, Props/C01Obs.lean: NO `Safe` hypothesis anywhere in this
+file; `toMarrow_readable` carries exactly the hypothesis of `C03_wfS'`, `Safe ∨ coveredF`, the others `coveredF`):
 
   wf_new              WFS f a, `readableDT f.dataType`      ⇒  Read.new Fixes.all a = ok ()
   wf_utf8             WFS f a, decodeAt a i = ok lv          ⇒  utf8Ok lv                       (no further hypothesis)
-  wf_physical_partial WFS f a, `physFreeDT f.dataType`      ⇒  Read.physical a   (PARTIAL: types without FixedSizeList /
-                      Dictionary; `wf_not_physical`: WFS alone does not bound the sizes `physical` speaks about)
+  wf_physical_plain   WFS f a, `physFreeDT f.dataType`      ⇒  Read.physical a   (types without FixedSizeList / Dictionary;
+                      `wf_not_physical`: `Spec.WFS` alone does not bound the sizes `physical` speaks about)
+  toMarrow_physical   ALL types, FixedSizeList and Dictionary included: every array `to_marrow` BUILDS is `Read.physical`
+                      when the schema-computed lengths fit — `sizeOKDT f.dataType rows.length`, a decidable predicate on
+                      (schema, number of records): FixedSizeList<_, n> of at most L rows needs `n * L ≤ usize::MAX`, a
+                      Dictionary of at most L rows `L ≤ i64::MAX`; L is `rows.length` at the top, `i32::MAX` / `i64::MAX`
+                      below a List / Map / LargeList.  From the builders' counting invariant `Cnt` (dictionary values ≤ keys
+                      pushed, union per-variant counters ≤ rows: Lemmas/C03PhysCnt.lean), not from `Spec.WFS`.
+                      `sizeOK_of_fslFree`: without FixedSizeList the only condition is `rows.length ≤ i64::MAX`.
+                      `input_bound_not_enough`: a bound on the INPUT alone cannot do (one `None` into a nested nullable
+                      FixedSizeList appends `n1 * n2 * n3` child slots), so the schema has to enter the bound.
   wf_dense / wf_dict_values_not_null   what the reader refuses and the builders never produce (sparse unions, nullable
                       dictionary values): excluded by WFS itself
   toMarrow_readable   every array of `to_marrow` is accepted by `ArrayDeserializer::new`, has `rows.length` rows for the
-                      reader (`vlen`), only decodes to valid UTF-8, and is `physical` (same restriction)
+                      reader (`vlen`), only decodes to valid UTF-8
   toMarrow_readAny    reading back what was built gives the documented value of the input: `readAny arrs[j] i` is the
-                      `toD` rendering of field `j` of `interpRow ext fields rows[i]` — NO reader-side hypothesis
+                      `toD` rendering of field `j` of `interpRow ext fields rows[i]` — NO reader-side hypothesis, every
+                      readable type (`hsize` instead of the former `hphys` / `physFreeDT`)
   toMarrow_readRecord the record-level form through `Access.new` / the root struct reader (`Roundtrip.readRecord .any`)
+  toMarrow_readAny_of_physical / toMarrow_readRecord_of_physical   the same with `Read.physical` of the arrays as an explicit
+                      precondition instead of `hsize` (complete statements; used where `physical` is obtained otherwise)
 
 `readableDT` (Lemmas/C03Read.lean) is a predicate on the SCHEMA: the types the reader supports although the builders
 accept more — UTC-or-no time zone (refused by both sides in fact), Dictionary(integer, Utf8 | LargeUtf8) only, known
@@ -34,7 +47,7 @@ accept more — UTC-or-no time zone (refused by both sides in fact), Dictionary(
 namespace SaModel.Props.C03
 open SaModel SaModel.Build SaModel.Spec
 
-open SaModel.Lemmas.C03 (readableDT readableF readableFs physFreeDT)
+open SaModel.Lemmas.C03 (readableDT readableF readableFs physFreeDT sizeOKDT fslFreeDT)
 
 /-- **`wf_new`**: `ArrayDeserializer::new` accepts every well-formed array of a field whose type the reader supports —
 every array kind, any nesting (generalises `Roundtrip.new_of_wf`, which was for traced enum-free schemas) -/
@@ -45,12 +58,10 @@ theorem wf_new (f : Field) (a : Arr) (hr : readableDT f.dataType = true) (h : WF
 theorem wf_utf8 (f : Field) (a : Arr) (i : Nat) (lv : LVal) (h : WFS f a = true) (hd : decodeAt a i = .ok lv) :
     Read.utf8Ok lv = true := Lemmas.C03.WF_utf8 f a i lv h hd
 
-/-- **`wf_physical_partial`**: `Read.physical` from well-formedness — PARTIAL: only for types without FixedSizeList and
-Dictionary.  What is missing: the two size clauses of `Read.physical` (FixedSizeList child ≤ `usize::MAX` slots, dictionary
-values ≤ `i64::MAX`) for those types; they do NOT follow from `Spec.WFS` (`wf_not_physical`) and the builder model has
-unbounded counters, so they need a size hypothesis on the input or an invariant on the number of distinct dictionary
-values (not done). -/
-theorem wf_physical_partial (f : Field) (a : Arr) (hp : physFreeDT f.dataType = true) (h : WFS f a = true) :
+/-- **`wf_physical_plain`**: `Read.physical` from well-formedness ALONE, for types without FixedSizeList and Dictionary
+(a complete statement about `Spec.WFS`: for the two excluded families `Spec.WFS` does not imply `physical`, `wf_not_physical`;
+for the arrays `to_marrow` BUILDS `toMarrow_physical` below covers every type). -/
+theorem wf_physical_plain (f : Field) (a : Arr) (hp : physFreeDT f.dataType = true) (h : WFS f a = true) :
     Read.physical a = true := Lemmas.C03.WF_physical_plain f a hp h
 
 /-- `Spec.WFS` alone does not give `Read.physical` (witness: FixedSizeList<Null, 2> of 2^63 rows) -/
@@ -102,8 +113,137 @@ theorem toMarrow_readable (ext : Ext) (fields : List Field) (rows : List SVal) (
   obtain ⟨hw, hl⟩ := hwf j f a hf ha
   have hmem : f ∈ fields := List.mem_of_getElem? hf
   have hnew := wf_new f a (hread f hmem) hw
-  refine ⟨hnew, ?_, fun i lv hd => wf_utf8 f a i lv hw hd, fun hp => wf_physical_partial f a hp hw⟩
+  refine ⟨hnew, ?_, fun i lv hd => wf_utf8 f a i lv hw hd, fun hp => wf_physical_plain f a hp hw⟩
   rw [Roundtrip.vlen_eq_lenOf a hnew, ← (Spec.decodeAll_spec a).1, hl]
+
+/-! ### `Read.physical` of the arrays `to_marrow` returns, every type -/
+
+/-- the counting invariant along a batch: `Cnt` only mentions state that survives `erase`, and the erased state after a push
+is `pushL` of the documented value (`Props.C11.push_determined`) -/
+theorem foldl_push_cnt (ext : Ext) (dt : DataType) (n : Bool) (md : Metadata) : ∀ (rows : List SVal) (b b' : B),
+    (∀ x ∈ rows, noRaw x = true) → WFH b → NoDictKey b → Shape b dt n md → Cnt b →
+    rows.foldlM (push ext) b = .ok b' → Cnt b'
+  | [], b, b', _, _, _, _, hc, h => by
+    simp [List.foldlM, pure, Except.pure] at h; subst h; exact hc
+  | x :: rest, b, b', hraw, hw, hn, hsh, hc, h => by
+    simp only [List.foldlM] at h
+    obtain ⟨b1, h1, h⟩ := (Lemmas.C03.bind_ok _ _ _).1 h
+    have hx := hraw x (by simp)
+    obtain ⟨hw1, hn1, hsh1, _⟩ := Props.C01.push_interp' ext x b b1 dt n md (noRaw_ssa x hx) (Or.inl hx) hw hn hsh h1
+    obtain ⟨un, hun⟩ := exists_unstr
+    obtain ⟨lv, _, he⟩ := Props.C11.push_determined ext un hun x b b1 dt n md hx hw hn hsh h1
+    have hc1 : Cnt b1 := (Cnt_erase b1).1 (by rw [he]; exact pushL_cnt un lv _ ((Cnt_erase b).2 hc))
+    exact foldl_push_cnt ext dt n md rest b1 b' (fun y hy => hraw y (by simp [hy])) hw1 hn1 hsh1 hc1 h
+
+theorem physicalFields_mem : ∀ (afs : ArrFields), Read.physicalFields afs = true → ∀ c ∈ afs.toList, Read.physical c.2 = true
+  | .nil, _, c, hc => by simp [ArrFields.toList] at hc
+  | .cons m a r, h, c, hc => by
+    simp only [Read.physicalFields, Bool.and_eq_true] at h
+    simp only [ArrFields.toList, List.mem_cons] at hc
+    rcases hc with rfl | hc
+    · exact h.1
+    · exact physicalFields_mem r h.2 c hc
+
+/-- **`toMarrow_physical`** — the size precondition of the reader, for EVERY type (FixedSizeList and Dictionary included).
+Whenever `to_marrow` returns arrays, every one of them is `Read.physical` (the child of every FixedSizeList has at most
+`usize::MAX` slots, every dictionary at most `i64::MAX` values, at any depth), provided the lengths computed from the schema
+and the NUMBER OF RECORDS fit: `sizeOKDT f.dataType rows.length` (Lemmas/C03PhysSize.lean; decidable).  For a schema without
+FixedSizeList that is just `rows.length ≤ i64::MAX` (`sizeOK_of_fslFree`); with FixedSizeList<_, n> columns the product of
+the sizes along a nesting path times the row count (`i32::MAX` / `i64::MAX` below a list) must fit `usize`.
+Hypotheses besides `hsize`: `coveredF` (the schema hypothesis of `C01_build_decode'`) and `noRaw` (no raw
+`serialize_key` / `serialize_value` streams) — those of `Props.C11.push_determined`; no `SchemaOKF`, `ExtOK`, `SValOK`, `Safe`.
+Derived from the builders' own bookkeeping: the counting invariant `Cnt` (a dictionary holds at most as many values as keys were
+pushed; the per-variant counters of a union are at most its row count), the row-count invariant `WFH` and the offset bounds
+`PX` of the final state — NOT from `Spec.WFS` of the arrays (`wf_not_physical`). -/
+theorem toMarrow_physical (ext : Ext) (fields : List Field) (rows : List SVal) (arrs : List Arr)
+    (hcov : fields.all Build.coveredF = true)
+    (hraw : ∀ x ∈ rows, Build.noRaw x = true)
+    (hsize : ∀ f ∈ fields, sizeOKDT f.dataType rows.length = true)
+    (h : toMarrow ext fields rows = .ok arrs) : ∀ a ∈ arrs, Read.physical a = true := by
+  obtain ⟨root, hrun, rest, hba⟩ := toMarrow_split ext fields rows arrs h
+  have h0 : ∃ root0, newRoot fields = .ok root0 := by
+    simp only [runRows] at hrun
+    cases hr : newRoot fields with
+    | error e => rw [hr] at hrun; cases hrun
+    | ok r0 => exact ⟨r0, rfl⟩
+  obtain ⟨root0, h0⟩ := h0
+  obtain ⟨hw, _, hl, _, _⟩ := Props.C01.runRows_rows' ext fields rows root0 root h0 hrun
+  have hpx := Lemmas.C03.runRows_PX ext fields rows root hrun
+  have hb := Lemmas.C03.runRows_builtFor ext fields rows root (Build.push_takeRest ext) hrun
+  have hc0 : Cnt root0 := by
+    have := takeRest_cnt root0 _ _ (newRoot_builtFor fields root0 h0)
+    rwa [(newRoot_fresh h0).2.2] at this
+  have hfold := hrun
+  simp only [runRows, h0] at hfold
+  have hfold : rows.foldlM (push ext) root0 = .ok root := hfold
+  have hc := foldl_push_cnt ext _ false [] rows root0 root hraw (Build.WFH_of_WFB _ (newRoot_fresh h0).1)
+    (Build.newRoot_NoDictKey h0) (newRoot_shape hcov h0) hc0 hfold
+  rw [Lemmas.C03.dec_length_rows root hw] at hl
+  cases root with
+  | struct p len v fs cached next seen =>
+    simp only [buildArrays] at hba
+    obtain ⟨cols, hcols, hba⟩ := (Lemmas.C03.bind_ok _ _ _).1 hba
+    simp only [pure, Except.pure, Except.ok.injEq, Prod.mk.injEq] at hba
+    obtain ⟨rfl, _⟩ := hba
+    simp only [Lemmas.C03.BuiltFor] at hb
+    obtain ⟨fields', hfe, _, hbl⟩ := hb
+    simp only [DataType.struct.injEq] at hfe
+    subst hfe
+    simp only [B.rows] at hl
+    simp only [Lemmas.C03.PX] at hpx
+    simp only [Cnt] at hc
+    have := Lemmas.C03.finishFields_sized ext fs cols _ len rows.length hcols (Lemmas.C03.WFH_struct hw).2 hpx hc hbl
+      (by omega) (Lemmas.C03.sizeOKFs_ofList fields rows.length hsize)
+    intro a ha
+    obtain ⟨c, hc', rfl⟩ := List.mem_map.mp ha
+    exact physicalFields_mem cols this c hc'
+  | _ => simp [buildArrays, panic] at hba
+
+/-- without FixedSizeList columns the size condition of `toMarrow_physical` is `rows.length ≤ i64::MAX` -/
+theorem sizeOK_of_fslFree (fields : List Field) (L : Nat) (hf : ∀ f ∈ fields, fslFreeDT f.dataType = true)
+    (hL : L ≤ 9223372036854775807) : ∀ f ∈ fields, sizeOKDT f.dataType L = true :=
+  fun f hm => Lemmas.C03.sizeOKDT_of_fslFree _ L (hf f hm) hL
+
+/-- `c: FixedSizeList<FixedSizeList<FixedSizeList<Null, N>, N>, N>?` -/
+def exBlowField (N : Int) : Field :=
+  let fsl (f : Field) : Field := .mk "element" (.fixedSizeList f N) false []
+  .mk "c" (.fixedSizeList (fsl (fsl (.mk "element" .null false []))) N) true []
+
+/-- the builder of `exBlowField N` holding `l0` rows (`l1`, `l2`, `l3`: the rows of the nested children) -/
+def exBlowB (N l0 l1 l2 l3 : Nat) (v : Validity) : B :=
+  let fm : FieldMeta := ⟨"element", false, []⟩
+  .fixedSizeList "$.c" fm N l0 v 0 (.fixedSizeList "$.c.element" fm N l1 none 0
+    (.fixedSizeList "$.c.element.element" fm N l2 none 0 (.null "$.c.element.element.element" l3)))
+
+theorem iter_count : ∀ (k len : Nat),
+    iter k (fun (s : Nat × Validity) => (.ok (s.1 + 1, setValidityDefault s.2 s.1) : R _)) (len, none) = .ok (len + k, none)
+  | 0, len => rfl
+  | k + 1, len => by
+    unfold iter
+    simp only [bind, Except.bind]
+    exact (iter_count k (len + 1)).trans (by congr 2; omega)
+
+theorem exBlow_new : newB "$.c" (exBlowField 2147483647) = .ok (exBlowB 2147483647 0 0 0 0 (some [])) := by decide
+
+/-- ONE `serialize_none` into the fresh builder: `N`, `N²`, `N³` child slots (symbolic: the model counts, the code loops) -/
+theorem exBlow_none (N : Nat) :
+    pushNone (exBlowB N 0 0 0 0 (some [])) = .ok (exBlowB N 1 N (N * N) (N * N * N) (some [false])) := by
+  simp only [exBlowB, pushNone, pushDefaultK, iter_count, setValidity, bind, Except.bind, pure, Except.pure, ctx, Nat.zero_add]
+  rfl
+
+/-- **a BOUND ON THE INPUT ALONE cannot give `Read.physical`**: ONE call `serialize_none` into the builder `build_builder`
+constructs for `c: FixedSizeList<FixedSizeList<FixedSizeList<Null, i32::MAX>, i32::MAX>, i32::MAX>?` is accepted (model:
+`serialize_none` of a fixed-size list issues `n` × `serialize_default` on its child — counted in the model, a loop in the
+code) and the innermost child of the finished array has `(2^31 - 1)^3 > usize::MAX` slots.  (The real crate would loop
+`2^93` times: it does not return; no defect.)  So the SCHEMA has to enter the size hypothesis of `toMarrow_physical`. -/
+theorem input_bound_not_enough :
+    let N : Nat := 2147483647
+    newB "$.c" (exBlowField (N : Int)) = .ok (exBlowB N 0 0 0 0 (some [])) ∧
+    pushNone (exBlowB N 0 0 0 0 (some [])) = .ok (exBlowB N 1 N (N * N) (N * N * N) (some [false])) ∧
+    (match finish {} (exBlowB N 1 N (N * N) (N * N * N) (some [false])) with
+     | .ok a => Read.physical a
+     | .error _ => true) = false :=
+  ⟨exBlow_new, exBlow_none _, by decide⟩
 
 /-- slot `i` of column `j`, from the column-wise statement of `C01_build_decode` -/
 theorem col_decodeAt {arrs : List Arr} {cols : List (String × List LVal)} {n : Nat}
@@ -121,9 +261,10 @@ theorem col_decodeAt {arrs : List Arr} {cols : List (String × List LVal)} {n : 
   rw [Roundtrip.decodeAt_of_decodeAll arrs[j] cols[j].2 i hcol hli]
   simp [List.getD, List.getElem?_eq_getElem hli]
 
-/-- `toMarrow_readAny` with the size precondition as a hypothesis on the arrays (for schemas with FixedSizeList /
-Dictionary columns, where `physical` is not derived).  PARTIAL: `hphys` remains. -/
-theorem toMarrow_readAny_partial (ext : Ext) (fields : List Field) (rows : List SVal) (arrs : List Arr)
+/-- `toMarrow_readAny` with the size precondition `Read.physical` of the arrays as an EXPLICIT hypothesis (`hphys`) instead
+of the schema-side bound `hsize`: a complete statement with that precondition, for callers that have `physical` from
+elsewhere (`toMarrow_readAny` below discharges it through `toMarrow_physical`). -/
+theorem toMarrow_readAny_of_physical (ext : Ext) (fields : List Field) (rows : List SVal) (arrs : List Arr)
     (hschema : ∀ f ∈ fields, Lemmas.C03.SchemaOKF f)
     (hcov : fields.all Build.coveredF = true)
     (hraw : ∀ x ∈ rows, Build.noRaw x = true)
@@ -152,28 +293,14 @@ theorem toMarrow_readAny_partial (ext : Ext) (fields : List Field) (rows : List 
   refine ⟨cols[j].2[i], by simp [List.getElem?_eq_getElem hjc, List.getElem?_eq_getElem hli], ?_⟩
   exact Props.C02.read_any_decode arrs[j] i _ hdec hnew (hphys _ (List.getElem_mem hj)) (hutf i _ hdec)
 
-/-- every array is `physical` when no field has a FixedSizeList / Dictionary -/
-theorem toMarrow_physical_partial (ext : Ext) (fields : List Field) (rows : List SVal) (arrs : List Arr)
-    (hschema : ∀ f ∈ fields, Lemmas.C03.SchemaOKF f)
-    (hsafe : (∀ root0, newRoot fields = .ok root0 → Safe root0) ∨ fields.all Build.coveredF = true)
-    (hext : Lemmas.C03.ExtOK ext)
-    (hrows : ∀ x ∈ rows, Lemmas.C03.SValOK x)
-    (hfree : ∀ f ∈ fields, physFreeDT f.dataType = true)
-    (h : toMarrow ext fields rows = .ok arrs) : ∀ a ∈ arrs, Read.physical a = true := by
-  obtain ⟨hlen, hwf⟩ := Props.C01.C03_wfS' ext fields rows arrs hschema hsafe hext hrows h
-  intro a ha
-  obtain ⟨j, hj, rfl⟩ := List.getElem_of_mem ha
-  have hjf : j < fields.length := by omega
-  have := hwf j fields[j] arrs[j] (List.getElem?_eq_getElem hjf) (List.getElem?_eq_getElem hj)
-  exact wf_physical_partial _ _ (hfree _ (List.getElem_mem hjf)) this.1
-
 /-- **`toMarrow_readAny`** — reading back what was built gives the documented value of the input.  Whenever `to_marrow`
 returns arrays, slot `i` of array `j`, read with `deserialize_any`, is the `toD` rendering of the `j`-th field of
-`interpRow ext fields rows[i]` (`cols`: the decoded columns of `C01_build_decode`).  NO reader-side hypothesis: the
-hypotheses are those of `C01_build_decode'` and `C03_wfS'` (schema: `SchemaOKF`, `coveredF` — NO `Safe`; rows: `noRaw`,
-`SValOK`; `ExtOK`), plus the two schema conditions of this file — `readableDT` (types the reader supports) and `physFreeDT` (no
-FixedSizeList / Dictionary: the part of `Read.physical` that is derived; `toMarrow_readAny_partial` is the statement for
-all readable schemas with `physical` as a hypothesis). -/
+`interpRow ext fields rows[i]` (`cols`: the decoded columns of `C01_build_decode`).  NO reader-side hypothesis, EVERY type the
+reader supports (FixedSizeList and Dictionary columns included): the hypotheses are those of `C01_build_decode'` and `C03_wfS'`
+(schema: `SchemaOKF`, `coveredF` — NO `Safe`; rows: `noRaw`, `SValOK`; `ExtOK`), plus the two schema conditions of this file —
+`readableDT` (types the reader supports) and `hsize` (`sizeOKDT`: the lengths computed from the schema and the number of
+records fit `usize` / `i64`; `rows.length ≤ i64::MAX` when there is no FixedSizeList: `sizeOK_of_fslFree`), from which
+`Read.physical` is derived (`toMarrow_physical`). -/
 theorem toMarrow_readAny (ext : Ext) (fields : List Field) (rows : List SVal) (arrs : List Arr)
     (hschema : ∀ f ∈ fields, Lemmas.C03.SchemaOKF f)
     (hcov : fields.all Build.coveredF = true)
@@ -181,7 +308,7 @@ theorem toMarrow_readAny (ext : Ext) (fields : List Field) (rows : List SVal) (a
     (hext : Lemmas.C03.ExtOK ext)
     (hrows : ∀ x ∈ rows, Lemmas.C03.SValOK x)
     (hread : ∀ f ∈ fields, readableDT f.dataType = true)
-    (hfree : ∀ f ∈ fields, physFreeDT f.dataType = true)
+    (hsize : ∀ f ∈ fields, sizeOKDT f.dataType rows.length = true)
     (h : toMarrow ext fields rows = .ok arrs) :
     arrs.length = fields.length ∧
     ∃ cols : List (String × List LVal), cols.length = arrs.length ∧
@@ -191,8 +318,8 @@ theorem toMarrow_readAny (ext : Ext) (fields : List Field) (rows : List SVal) (a
       ∀ (j : Nat) (hj : j < arrs.length) (i : Nat), i < rows.length →
         ∃ lv, (cols[j]?.map (·.2[i]?)) = some (some lv) ∧
           Read.readAny Read.Fixes.all arrs[j] i = .ok (Read.toD arrs[j] lv) :=
-  toMarrow_readAny_partial ext fields rows arrs hschema hcov hraw hext hrows hread
-    (toMarrow_physical_partial ext fields rows arrs hschema (Or.inr hcov) hext hrows hfree h) h
+  toMarrow_readAny_of_physical ext fields rows arrs hschema hcov hraw hext hrows hread
+    (toMarrow_physical ext fields rows arrs hcov hraw hsize h) h
 
 /-! ### the record level: `Deserializer::from_marrow(fields, arrays)` + item `i` -/
 
@@ -201,8 +328,9 @@ theorem readableFs_ofList : ∀ (l : List Field), (∀ f ∈ l, readableF f = tr
   | f :: r, h => by
     simp [Fields.ofList, Lemmas.C03.readableFs, h f (by simp), readableFs_ofList r (fun g hg => h g (by simp [hg]))]
 
-/-- record-level core with `physical` as a hypothesis (PARTIAL: `hphys` remains for FixedSizeList / Dictionary columns) -/
-theorem toMarrow_readRecord_partial (ext : Ext) (fields : List Field) (rows : List SVal) (arrs : List Arr)
+/-- record-level form with `Read.physical` of the arrays as an EXPLICIT hypothesis (`hphys`) instead of `hsize`: a complete
+statement with that precondition (`toMarrow_readRecord` below discharges it through `toMarrow_physical`) -/
+theorem toMarrow_readRecord_of_physical (ext : Ext) (fields : List Field) (rows : List SVal) (arrs : List Arr)
     (hschema : ∀ f ∈ fields, Lemmas.C03.SchemaOKF f)
     (hcov : fields.all Build.coveredF = true)
     (hraw : ∀ x ∈ rows, Build.noRaw x = true)
@@ -260,8 +388,8 @@ theorem toMarrow_readRecord_partial (ext : Ext) (fields : List Field) (rows : Li
 /-- **`toMarrow_readRecord`** — the record-level form: `Deserializer::from_marrow(fields, arrays)` accepts the built columns
 (`Access.new`: as many arrays as fields, all of `rows.length` rows; the root struct reader can be constructed) and reading
 record `i` with `deserialize_any` returns the `toD` rendering of `interpRow ext fields rows[i]` — the documented value of
-the `i`-th input record.  No reader-side hypothesis; `readableF` also asks the TOP-LEVEL fields' strategy metadata to be
-known (the root reader parses it); `physFreeDT` as in `toMarrow_readAny`. -/
+the `i`-th input record.  No reader-side hypothesis, every readable type; `readableF` also asks the TOP-LEVEL fields' strategy
+metadata to be known (the root reader parses it); `hsize` as in `toMarrow_readAny`. -/
 theorem toMarrow_readRecord (ext : Ext) (fields : List Field) (rows : List SVal) (arrs : List Arr)
     (hschema : ∀ f ∈ fields, Lemmas.C03.SchemaOKF f)
     (hcov : fields.all Build.coveredF = true)
@@ -269,15 +397,15 @@ theorem toMarrow_readRecord (ext : Ext) (fields : List Field) (rows : List SVal)
     (hext : Lemmas.C03.ExtOK ext)
     (hrows : ∀ x ∈ rows, Lemmas.C03.SValOK x)
     (hread : ∀ f ∈ fields, readableF f = true)
-    (hfree : ∀ f ∈ fields, physFreeDT f.dataType = true)
+    (hsize : ∀ f ∈ fields, sizeOKDT f.dataType rows.length = true)
     (hne : fields ≠ [])
     (h : toMarrow ext fields rows = .ok arrs) :
     Access.new true fields.length (arrs.map Read.vlen) = .ok rows.length ∧
     Read.new Read.Fixes.all (Roundtrip.rootArr fields arrs rows.length) = .ok () ∧
     ∀ (i : Nat) (hi : i < rows.length), ∃ lv, interpRow ext fields rows[i] = .ok lv ∧
       Roundtrip.readRecord .any fields arrs i = .ok (Read.toD (Roundtrip.rootArr fields arrs rows.length) lv) :=
-  toMarrow_readRecord_partial ext fields rows arrs hschema hcov hraw hext hrows hread hne
-    (toMarrow_physical_partial ext fields rows arrs hschema (Or.inr hcov) hext hrows hfree h) h
+  toMarrow_readRecord_of_physical ext fields rows arrs hschema hcov hraw hext hrows hread hne
+    (toMarrow_physical ext fields rows arrs hcov hraw hsize h) h
 
 /-! ### non-vacuity -/
 
@@ -328,30 +456,56 @@ example : ∀ arrs, toMarrow {} exFields exRows = .ok arrs →
   have hcov : exFields.all Build.coveredF = true := by decide
   have hraw : ∀ x ∈ exRows, Build.noRaw x = true := by decide
   have hread : ∀ f ∈ exFields, readableF f = true := by decide
-  have hfree : ∀ f ∈ exFields, physFreeDT f.dataType = true := by decide
-  obtain ⟨h1, _, h3⟩ := toMarrow_readRecord {} exFields exRows arrs hschema hcov hraw hext hrows hread hfree
+  have hsize : ∀ f ∈ exFields, sizeOKDT f.dataType exRows.length = true := by decide
+  obtain ⟨h1, _, h3⟩ := toMarrow_readRecord {} exFields exRows arrs hschema hcov hraw hext hrows hread hsize
     (by simp [exFields]) h
   obtain ⟨_, cols, hc, _, _, h4⟩ := toMarrow_readAny {} exFields exRows arrs hschema hcov hraw hext hrows
-    (fun f hf => Lemmas.C03.readableDT_of_F (hread f hf)) hfree h
+    (fun f hf => Lemmas.C03.readableDT_of_F (hread f hf)) hsize h
   exact ⟨h1, h3, cols, hc, h4⟩
 
-/-- `toMarrow_readAny_partial` on the schema OUTSIDE `Safe` of Props/C01Obs.lean (`{s: Struct{d: Dictionary(UInt8, Utf8)}?}`,
-records `None`, `{d: "a"}`, `None`: `Props.C01.exUnsafe_not_safe`): every hypothesis discharged, the physical size of the
-built arrays computed -/
-example : ∀ arrs, toMarrow {} Props.C01.exUnsafeFields Props.C01.exUnsafeRows = .ok arrs → (∀ a ∈ arrs, Read.physical a = true) →
+/-- `toMarrow_readAny` on the schema OUTSIDE `Safe` of Props/C01Obs.lean (`{s: Struct{d: Dictionary(UInt8, Utf8)}?}`,
+records `None`, `{d: "a"}`, `None`: `Props.C01.exUnsafe_not_safe`) — a DICTIONARY column: every hypothesis discharged
+(`hsize` decided on the schema and the record count), nothing assumed about the arrays -/
+example : ∀ arrs, toMarrow {} Props.C01.exUnsafeFields Props.C01.exUnsafeRows = .ok arrs →
+    (∀ a ∈ arrs, Read.physical a = true) ∧
     ∃ cols : List (String × List LVal), cols.length = arrs.length ∧
       ∀ (j : Nat) (hj : j < arrs.length) (i : Nat), i < Props.C01.exUnsafeRows.length →
         ∃ lv, (cols[j]?.map (·.2[i]?)) = some (some lv) ∧
           Read.readAny Read.Fixes.all arrs[j] i = .ok (Read.toD arrs[j] lv) := by
-  intro arrs h hphys
+  intro arrs h
   have hext : Lemmas.C03.ExtOK {} := by constructor <;> (intros; rename_i h; cases h)
-  obtain ⟨_, cols, hc, _, _, h4⟩ := toMarrow_readAny_partial {} Props.C01.exUnsafeFields Props.C01.exUnsafeRows arrs
+  have hsize : ∀ f ∈ Props.C01.exUnsafeFields, sizeOKDT f.dataType Props.C01.exUnsafeRows.length = true := by decide
+  obtain ⟨_, cols, hc, _, _, h4⟩ := toMarrow_readAny {} Props.C01.exUnsafeFields Props.C01.exUnsafeRows arrs
     (by simp [Props.C01.exUnsafeFields, Lemmas.C03.SchemaOKF, Lemmas.C03.SchemaOK, Lemmas.C03.SchemaOKFs]) (by decide) (by decide) hext
     (by
       intro x hx
       simp only [Props.C01.exUnsafeRows, List.mem_cons, List.not_mem_nil, or_false] at hx
       rcases hx with rfl | rfl | rfl <;> simp [Lemmas.C03.SValOK, Lemmas.C03.SFieldsOK])
-    (by decide) hphys h
-  exact ⟨cols, hc, h4⟩
+    (by decide) hsize h
+  exact ⟨toMarrow_physical {} _ _ arrs (by decide) (by decide) hsize h, cols, hc, h4⟩
+
+/-- a FixedSizeList of dictionary-encoded strings below a nullable struct, and a union: the columns `physFreeDT` excluded -/
+def exSizedFields : List Field :=
+  [.mk "f" (.fixedSizeList (.mk "element" (.dictionary .int8 .utf8) true []) 2) true [],
+   .mk "u" (.union (.cons 0 (.mk "A" (.fixedSizeList (.mk "element" .int32 false []) 3) false [])
+      (.cons 1 (.mk "B" .null true []) .nil)) .dense) false []]
+def exSizedRows : List SVal :=
+  [.record "R" (.cons "f" 0 (.seq (.cons (.str "a") (.cons .none .nil)))
+      (.cons "u" 1 (.newtypeVariant "U" 0 "A" (.seq (.cons (.int .i32 1) (.cons (.int .i32 2) (.cons (.int .i32 3) .nil))))) .nil)),
+   .record "R" (.cons "f" 0 .none (.cons "u" 1 (.unitVariant "U" 1 "B") .nil))]
+
+/-- non-vacuity of `toMarrow_physical`: the hypotheses hold of `exSizedFields` / `exSizedRows` (decided), `to_marrow` accepts the
+batch, and the conclusion is the computed fact; `sizeOKDT` FAILS for the same schema with `2^63` records (the bound is not
+vacuous either) -/
+example : exSizedFields.all Build.coveredF = true ∧ (∀ x ∈ exSizedRows, Build.noRaw x = true) ∧
+    (∀ f ∈ exSizedFields, sizeOKDT f.dataType exSizedRows.length = true) ∧
+    (match toMarrow {} exSizedFields exSizedRows with
+     | .ok arrs => arrs.all Read.physical
+     | .error _ => false) = true ∧
+    (exSizedFields.all fun f => sizeOKDT f.dataType (2 ^ 63)) = false := by
+  refine ⟨by decide, by decide, by decide, by decide +kernel, by decide⟩
+
+example : ∀ arrs, toMarrow {} exSizedFields exSizedRows = .ok arrs → ∀ a ∈ arrs, Read.physical a = true :=
+  fun arrs h => toMarrow_physical {} exSizedFields exSizedRows arrs (by decide) (by decide) (by decide) h
 
 end SaModel.Props.C03
